@@ -5,8 +5,9 @@ default-ignorable zeroing of `position_complex` lives in fonts with positioning 
 carry every combination of
 
     GPOS kerning (PairPos 1 / 2) / mark attachment (MarkToBase, MarkToMark) / cursive attachment,   legacy `kern`,   `kerx`
-    (formats 0 / 2 / 6),   `trak` (horizontal / vertical data) together with a point size,   `morx` (AAT plan),   GDEF classes
-    (marks, also on default-ignorable glyphs),   glyph extents (fallback mark positioning),   vertical metrics,   with / without a
+    (formats 0 / 2 / 6),   `trak` (horizontal / vertical data) together with a point size,   `morx` (AAT plan),   GDEF (glyph class
+    of EVERY glyph — .notdef, space, the default ignorables' own glyphs — drawn from not listed / 1 / 2 / 3 / 4 / 5 / 255, mark
+    attachment classes, mark glyph sets),   glyph extents (fallback mark positioning),   vertical metrics,   with / without a
     space glyph
 
 and shapes texts with default ignorables of BOTH kinds (grapheme starting: ZWNJ, SHY, LRM, WJ, ALM, BOM, ZWSP, ...;
@@ -116,6 +117,31 @@ def fixed_trak():
     return struct.pack(">IHHHH", 0x00010000, 0, 12, 12 + len(hor), 0) + hor + ver
 
 
+# what a ClassDef may say about a glyph: not listed, the four classes of the specification (1 base, 2 ligature, 3 mark,
+# 4 component) and values the specification does not define
+GDEF_CLASS_VALUES = [None, 1, 2, 3, 4, 5, 255]
+
+
+def rand_gdef(r, ng, letters, marks):
+    """GDEF of a generated font: the glyph class of EVERY glyph (.notdef, the space glyph, the default ignorables' own glyphs, the
+    morx target) is drawn independently from GDEF_CLASS_VALUES; the letters and combining marks keep their natural classes in
+    two fonts out of three (so that mark attachment / fallback mark positioning still run) and are drawn like the others in the
+    third.  Mark attachment classes and mark glyph sets are drawn the same way (any glyph, whatever its class)."""
+    natural = r.chance(2, 3)
+    cls = {}
+    for g in range(ng):
+        k = r.choice(GDEF_CLASS_VALUES)
+        if natural and g in letters: k = 1
+        if natural and g in marks: k = 3
+        if k is not None: cls[g] = k
+    gd = {"classes": cls}
+    if r.chance(1, 2):
+        gd["mark_attach"] = {g: r.choice([1, 2, 3, 4, 16, 255]) for g in range(ng) if r.chance(1, 2)}
+    if r.chance(1, 3):
+        gd["mark_sets"] = [sorted(r.sample(list(range(ng)), r.range(0, min(6, ng)))) for _ in range(r.range(1, 2))]
+    return gd
+
+
 def build_env_font(r, env, dis, trak_table=None):
     """returns (hex, info) — info: di_gid {cp: gid or 0}, space gid or None"""
     ng = G_DI0 + len(dis)
@@ -175,12 +201,7 @@ def build_env_font(r, env, dis, trak_table=None):
     if env.get("kern"):
         rec["kern"] = [{"pairs": [(a, b, v) for (a, b), v in sorted({(gl(), gl()): val() for _ in range(14)}.items())]}]
     if env.get("gdef"):
-        cls = {g: 1 for g in letters}
-        cls.update({g: 3 for g in marks})
-        for g in digl:
-            k = r.below(4)
-            if k: cls[g] = k if k != 2 else 3
-        rec["gdef"] = {"classes": cls}
+        rec["gdef"] = rand_gdef(r, ng, letters, marks)
     if env.get("extents"):
         ext = {g: [20, -10 - g, 380, 600 + 5 * g] for g in letters + [G_ALT]}
         ext.update({g: [-200, 650, -40, 780] for g in marks})
@@ -383,7 +404,9 @@ def search(ctx, shim, chars, di_all, r):
                     fonts=len(fonts),
                     environments=sorted({f[0] for f in fonts})[:60],
                     rule="shape() on generated fonts carrying every combination of GPOS kern / mark / cursive lookups, kern, kerx, "
-                         "trak (+ point size none / small / large), morx, GDEF, glyph extents (fallback mark positioning), vertical "
+                         "trak (+ point size none / small / large), morx, GDEF (glyph class of every glyph incl. .notdef / space / the default "
+                         "ignorables' glyphs from {not listed, 1, 2, 3, 4, 5, 255}, mark attachment classes, mark glyph sets), glyph extents "
+                         "(fallback mark positioning), vertical "
                          "metrics, with / without space glyph, and on the corpus TRAK.ttf; default ignorables of both kinds "
                          "(grapheme starting / continuation; named + sampled) x 8 positions x {default, REMOVE, PRESERVE} x 4 "
                          "directions x levels; oracle: the default ignorable itself shows the space glyph with zero advance and "
@@ -434,6 +457,39 @@ def position_complex_lines(shim, r, nfonts, per_font):
             scratch = 2 if r.chance(5, 6) else 0
             lines.append(f"trak poscx {fonts[fi]} {pt} {d} {flags} {r.below(3)} {scratch} {t} " + ",".join(items))
     return lines
+
+
+def gdef_props_lines(r, nfonts):
+    """`gdefprops` requests: generated fonts whose GDEF gives every glyph a class value from not listed / 0..7 / 255 / 256 /
+    65535 and a mark attachment class value likewise (ClassDef format 1 or 2 as the builder chooses for the shape of the
+    table; fonts without glyph class definition / without GDEF too); every glyph is asked."""
+    lines = []
+    for _ in range(nfonts):
+        ng = r.range(1, 40)
+        cv = r.choice([[None, 1, 2, 3, 4, 5, 255], [None, 0, 1, 2, 3, 4, 5, 6, 7, 255, 256, 65535], [3, 4], [None, 4]])
+        kind = r.below(8)            # 0: no GDEF, 1: GDEF without glyph classes, else both tables
+        cls = {g: c for g in range(ng) for c in [r.choice(cv)] if c is not None and kind > 1}
+        att = {g: a for g in range(ng) for a in [r.choice([None, None, 0, 1, 2, 7, 255, 256, 65535])] if a is not None and kind > 0}
+        if r.chance(1, 4) and kind > 1:
+            # long runs of one class (ClassDef format 2 ranges / format 1 arrays)
+            lo = r.below(ng); c = r.choice([1, 3, 4])
+            for g in range(lo, min(ng, lo + r.range(1, 12))): cls[g] = c
+        rec = {"num_glyphs": ng, "cmap": {0x41: min(1, ng - 1)}}
+        if kind > 0:
+            rec["gdef"] = {"mark_attach": att} if kind == 1 else {"classes": cls, "mark_attach": att}
+            if r.chance(1, 4): rec["gdef"]["mark_sets"] = [sorted(cls)[:3]]
+        items = ",".join(f"{g}:{cls.get(g, '-')}:{att.get(g, '-')}" for g in range(ng))
+        lines.append(f"gdefprops {fontbuild.build(rec).hex()} {items}")
+    return lines
+
+
+def classify_gdef_props(ln, out):
+    ks = set()
+    for it in ln.split()[2].split(","):
+        g, c, a = it.split(":")
+        ks.add("class:" + c)
+        if c == "3": ks.add("mark-attach:" + a)
+    return sorted(ks)
 
 
 def classify_poscx(ln, out):
